@@ -15,7 +15,19 @@ CONFIG = {
                   "(the caller continues with b[n:]) and released-at-server is a prefix of it, from the regenerated position of "
                   "`n += len(data)` relative to the error return (c07WriteCount); C07_witness_count_after_return is the kernel-checked "
                   "counter-example for the other order. Tied by the dnswrites component: histories of several Writes on the real "
-                  "ClientDnsConnection / ServerDnsListener with failures part-way, polls and reads.",
+                  "ClientDnsConnection / ServerDnsListener with failures part-way, polls and reads. "
+                  "Liveness: C07_eventual_delivery - from the state after ANY well-bounded history, n consecutive delivered exchanges "
+                  "(polls included) with n >= |A.out| and n >= |B.out|+1 (so |A.out|+|B.out|+1 suffices; tight) leave both out-queues "
+                  "empty with released = accepted in both directions; by a further invariant on the receiver's duplicate cache "
+                  "(InQ.acked = numbers of the last min(r,Max) released chunks, from the regenerated fact c07InTrim = 2) and a variant "
+                  "argument (C07_delivered_exchange_progress); C07_eventual_delivery_lossy: the delivered exchanges need not be consecutive - "
+                  "any write-free continuation (all fates, reads) containing that many delivered exchanges drains, because no fate "
+                  "undoes progress. C07_witness_wrap / _stmt / _cache: with the pre-repair trimming "
+                  "(acked[0:128]) the loss-free stop-and-wait run of 65536+j rounds (1 <= j <= 128) from ANY start numbers ends with an "
+                  "empty out-queue, 65536+j bytes accepted and 65536 released - proved by an inductive characterisation of the run "
+                  "(A's cache frozen at the first 128 acks), not by evaluation. C07_window_loop: the model runs the acceptance-window "
+                  "loop of InQueue.Append as written (wrapping uint16 counter) and it equals the closed form used by the invariants, "
+                  "for all loop bounds.",
     "level_note": "Partial: (1) the theorems are about the queue pair and a queue-level transcription of SendAndReceive/packet; the "
                   "5-try retry loop of SendAndReceive is modelled and proved separately for one fragment (C07_loss_absorbed, tied by the "
                   "dnsretry component on the real ClientDnsConnection/ServerDnsListener with a scripted communicator); timers, the poll "
@@ -23,10 +35,12 @@ CONFIG = {
                   "C07_write_reports_enqueued covers the client's accounting; the server->client accounting has no error path (no callback) "
                   "and is checked by the dnswrites monitor only. (2) Hypothesis WellBounded: chunks per Write + replay age + "
                   "MaxCachedChunks + 3 <= 65536; the excluded point (a query replayed >= 65409 exchanges late) corrupts the stream on "
-                  "the real code and is recorded as open finding C07-late-replay. (3) Eventual delivery is checked by the monitor on "
-                  "the implementation (loss-free tail drains both queues) but NOT proved in Lean; C07_witness_wrap (Lean counter-example "
-                  "for keep-oldest trimming, 65537 rounds) is not proved either - the counter-example is exhibited on the real code by "
-                  "corpus/C07/wrap_keep_oldest.ops and reverting the fix breaks C07_wrap through Cfg.gen_good (see notes/C07.md). "
+                  "the real code and is recorded as open finding C07-late-replay. (3) Eventual delivery is about write-free "
+                  "continuations and assumes nothing about when delivered exchanges happen (no fairness statement; timers not modelled); "
+                  "the implementation-side monitor (loss-free tail drains both queues) is unchanged. C07_witness_wrap is about the "
+                  "written-out facts of the old tree (MaxCachedChunks fixed at 128) and stops at round 65536+128; the stuck state "
+                  "after it is exhibited on the real code by corpus/C07/wrap_keep_oldest.ops under the reverted fix, which also "
+                  "breaks C07_wrap through Cfg.gen_good (see notes/C07.md). "
                   "Trusted: Lean kernel, the hand-written model SA.Model.Queue and the sampled correspondence, sequential writer per end.",
     "technique": "Lean 4 proof (invariant over ghost chunk indices, induction over event histories) + model/code differential correspondence",
     "components": [{"name": "queue", "timeout": {"quick": 600, "thorough": 1500}},
